@@ -30,6 +30,7 @@ func (m *MonSnapshot) rep(s *Sim, rule, site, detail string) {
 
 func (m *MonSnapshot) Init(s *Sim) {
 	opts := s.Opts
+	opts.AppDir = "" // a second instance never shares the first one's app DB directory
 	opts.Dir, opts.Wrap = "", nil
 	m.p2 = NewNode(opts)
 	if _, pi := m.p2.InitChain(s.Gen, s.W.InitialHeight, s.T0); pi != nil {
@@ -134,6 +135,7 @@ func (m *MonSnapshot) AfterBlock(s *Sim, req *BlockReq, res *BlockRes) {
 	}
 	// restore into a fresh node
 	opts := s.Opts
+	opts.AppDir = "" // a second instance never shares the first one's app DB directory
 	opts.Dir, opts.Wrap, opts.SnapshotInterval = "", nil, 0
 	r := NewNode(opts)
 	r.EnableRestoreStore()
